@@ -13,6 +13,7 @@ mod oracle;
 mod c07;
 mod c07der;
 mod c08;
+mod c08fuzz;
 mod c09;
 mod c10;
 mod tok;
